@@ -239,7 +239,7 @@ type walRec struct {
 	Window  []Case `json:"window"` // recent cases on the same node, oldest first; the last one is case Idx
 }
 
-const maxWindow = 24
+const maxWindow = 32
 
 func readWal(path string) walRec {
 	var rec walRec
